@@ -106,7 +106,7 @@ def run_mc(name, workers=4, timeout=3600, xmx="8g", cfg=None, env=None):
     if not os.path.exists(os.path.join(SPEC, module + ".tla")):
         module = name.rsplit("_", 1)[0]          # MC_Calendar_quick -> MC_Calendar.tla + MC_Calendar_quick.cfg
     rc, out = tlc(module + ".tla", cfg or (name + ".cfg"), os.path.join(WORK, "meta_%s_%d" % (name, os.getpid())),
-                  workers=(16 if name in HEAVY_EVAL else workers), xmx=xmx, timeout=timeout,
+                  workers=(16 if name in HEAVY_EVAL else 8 if name == "MC_Scales" else workers), xmx=xmx, timeout=timeout,
                   coverage=(name not in HEAVY_EVAL), env=env)
     m = None
     for m in STATS_RE.finditer(out):
